@@ -63,8 +63,8 @@ CastleOne(p, idx, kf, rf) ==
 CastleMoves(p) == LET c == p.stm IN CastleOne(p, 2*c+1, 6, 5) \cup CastleOne(p, 2*c+2, 2, 3)
 
 Legal(p) ==
-  LET c == p.stm IN
-  {m \in PseudoLegal(p) : LET nb == MakeB(p, m) IN ~Attacked(nb, KingSq(nb, c), 1-c)} \cup CastleMoves(p)
+  LET c == p.stm  ks == KingSq(p.b, c) IN
+  {m \in PseudoLegal(p) : LET nb == MakeB(p, m) IN ~Attacked(nb, IF m[1] = ks THEN m[2] ELSE ks, 1-c)} \cup CastleMoves(p)
 
 (* ---- the complete successor ---- *)
 IsCastle(p, m) == ColorOf(p.b[m[2]]) = p.stm
